@@ -1,6 +1,6 @@
 #!/usr/bin/env python3
-"""Applies a patch to /repo, checks that it compiles and passes the baseline suite, runs the
-given checks against it and ALWAYS reverts /repo afterwards.
+"""Applies a patch to a scratch worktree of /repo (never to /repo itself), checks that it compiles and
+passes the baseline suite, and runs the given checks against that worktree (VERIF_REPO_OVERRIDE).
 
   tools/trymutant.py <patch.diff> <ID> [<ID> ...] [--tier quick] [--seed N]
 Prints one line per check: KILLED (exit 1), SURVIVED (exit 0) or INCONCLUSIVE (exit 2).
@@ -21,19 +21,22 @@ def main():
         if a == "--seed":
             seed = sys.argv[i + 1]; args.remove(seed)
     patch, ids = os.path.abspath(args[0]), args[1:]
-    if sh("git -C /repo status --porcelain").stdout.strip():
-        print("REFUSING: /repo is not clean"); return 2
-    r = sh("git -C /repo apply " + patch)
+    wt = "/tmp/mutrun-%d" % os.getpid()
+    scratch = wt + "-out"
+    r = sh("git -C /repo worktree add -q --detach %s HEAD" % wt)
     if r.returncode != 0:
-        print("patch does not apply:", r.stdout); return 2
+        print("cannot create worktree:", r.stdout); return 2
     rc = 0
     try:
-        b = sh("cd /repo && go build ./... && go test -vet=off -count=1 ./... 2>&1 | tail -5")
+        r = sh("git apply " + patch, cwd=wt)
+        if r.returncode != 0:
+            print("patch does not apply:", r.stdout); return 2
+        b = sh("go build ./... && go test -vet=off -count=1 ./... 2>&1 | tail -5", cwd=wt)
         ok = b.returncode == 0 and "FAIL" not in b.stdout
         print("baseline with mutant:", "passes" if ok else "FAILS\n" + b.stdout)
         for pid in ids:
             t0 = time.time()
-            env = dict(os.environ, VERIF_SEED=seed)
+            env = dict(os.environ, VERIF_SEED=seed, VERIF_REPO_OVERRIDE=wt, VERIF_EVIDENCE_DIR=scratch + "/evidence", VERIF_FAILURES_DIR=scratch + "/failures")
             c = sh("./check %s --tier %s" % (pid, tier), cwd=VERIF, env=env)
             verdict = {0: "SURVIVED", 1: "KILLED", 2: "INCONCLUSIVE"}.get(c.returncode, "rc=%d" % c.returncode)
             lines = c.stdout.strip().splitlines()
@@ -42,9 +45,8 @@ def main():
             if c.returncode != 1:
                 rc = 1
     finally:
-        sh("git -C /repo checkout -- . && git -C /repo clean -fdq")
-        # evidence written against a mutated tree is not evidence
-        sh("git checkout -- evidence 2>/dev/null", cwd=VERIF)
+        sh("git -C /repo worktree remove --force %s" % wt)
+        sh("rm -rf %s" % scratch)
     return rc
 
 if __name__ == "__main__":
